@@ -18,6 +18,7 @@
 //	                                   (the model takes the parse result as an input: ajson/xmlquery are not modelled)
 //	threshold <n>                      (model side only: compared with the regenerated expression by a theorem)
 //	cq … (conc.go), subm … / grp … (group.go), path … (path.go): round 4
+//	pm … (members.go), fetch … (fetch.go): round 5
 package c07
 
 import (
@@ -28,6 +29,7 @@ import (
 	"math/big"
 	"net/http"
 	"net/http/httptest"
+	"os"
 	"strconv"
 	"strings"
 	"sync"
@@ -135,6 +137,9 @@ func docURL(doc []byte) string {
 		srv = httptest.NewServer(http.HandlerFunc(func(w http.ResponseWriter, r *http.Request) {
 			if v, ok := docs.Load(r.URL.Path); ok {
 				w.Write(v.([]byte))
+				return
+			}
+			if specialPath(w, r) { // members.go: cut connection, cut body, over-long body
 				return
 			}
 			w.WriteHeader(404)
@@ -518,6 +523,10 @@ func exec(line string) (res h.Result) {
 		return execGrp(w)
 	case "path":
 		return execPath(w)
+	case "pm":
+		return execPM(w)
+	case "fetch":
+		return execFetch(w)
 	case "threshold":
 		n := h.Atoi(w[1])
 		res.Impl = strconv.Itoa(n/2 + 1)
@@ -592,6 +601,16 @@ func rands(rng *h.Rng, thorough bool) []*big.Int {
 }
 
 func gen(tier string, rng *h.Rng, emit func(string)) {
+	if only := os.Getenv("C07_ONLY"); only != "" { // development aid: C07_ONLY=pm,fetch generates only these kinds of lines
+		all := emit
+		emit = func(l string) {
+			for _, k := range strings.Split(only, ",") {
+				if strings.HasPrefix(l, k+" ") {
+					all(l)
+				}
+			}
+		}
+	}
 	thorough := tier == "thorough"
 	rs := rands(rng, thorough)
 	// padOrTrim
@@ -717,6 +736,10 @@ func gen(tier string, rng *h.Rng, emit func(string)) {
 	genGroup(tier, rng, emit)
 	// round 4: content stage -> genSign -> recoverSign -> reportQueryResult (path.go)
 	genPath(tier, rng, emit)
+	// round 5: the same path in a group of n members with per-member failures of the content stage (members.go)
+	genPM(tier, rng, emit)
+	// round 5: the document bound of dataFetch at its boundary (fetch.go)
+	genFetch(tier, rng, emit)
 }
 
 // ---- grammars
